@@ -98,14 +98,26 @@ func runImpl(src string) (res implResult) {
 
 // ---------- resolution sets ----------
 
-type rmask [3]uint64
+const maskWords = (nReso + 63) / 64
+
+type rmask [maskWords]uint64
 
 func (m *rmask) set(i int)     { m[i/64] |= 1 << uint(i%64) }
 func (m rmask) has(i int) bool { return m[i/64]&(1<<uint(i%64)) != 0 }
 func (m rmask) and(o rmask) rmask {
-	return rmask{m[0] & o[0], m[1] & o[1], m[2] & o[2]}
+	for i := range m {
+		m[i] &= o[i]
+	}
+	return m
 }
-func (m rmask) empty() bool { return m[0]|m[1]|m[2] == 0 }
+func (m rmask) empty() bool {
+	for _, w := range m {
+		if w != 0 {
+			return false
+		}
+	}
+	return true
+}
 func fullMask() rmask {
 	var m rmask
 	for i := 0; i < nReso; i++ {
@@ -113,11 +125,39 @@ func fullMask() rmask {
 	}
 	return m
 }
-func (m rmask) String() string { return fmt.Sprintf("%016x%016x%016x", m[2], m[1], m[0]) }
+func (m rmask) String() string { return strings.Join(m.describe(), "; ") }
+
+// restrictions is describe() limited to the points that m actually constrains.
+func (m rmask) restrictions() []string {
+	var out []string
+	for i, s := range m.describe() {
+		if len(m.values(i)) < resoDims[i] {
+			out = append(out, s)
+		}
+	}
+	return out
+}
+
+func (m rmask) values(d int) []int {
+	seen := map[int]bool{}
+	for i := 0; i < nReso; i++ {
+		if m.has(i) {
+			seen[int(dimsTab[i][d])] = true
+		}
+	}
+	var vs []int
+	for v := 0; v < resoDims[d]; v++ {
+		if seen[v] {
+			vs = append(vs, v)
+		}
+	}
+	return vs
+}
 
 // describe lists, per open point, the resolutions still possible under m.
 func (m rmask) describe() []string {
-	names := []string{"for/while body scope", "C-for scope", "for-in scope", "try/catch/finally scope", "break/continue/return leaving a try body", "break inside switch inside loop"}
+	names := []string{"for/while body scope", "C-for scope", "for-in scope", "try/catch/finally scope", "break/continue/return leaving a try body", "break inside switch inside loop",
+		"name bound by an else-if condition", "name bound by a switch operand or case expression", "name bound by the C-for init statement"}
 	vals := [][]string{
 		{"one scope per loop", "fresh body scope per iteration"},
 		{"one scope per loop (init, condition, post, body)", "header scope + fresh body scope per iteration"},
@@ -125,9 +165,12 @@ func (m rmask) describe() []string {
 		{"catch and finally run in the try body's scope", "try, catch and finally each get their own scope"},
 		{"handled like an error: catch runs, then finally, execution continues after the try", "passes through, finally runs", "passes through, finally does not run"},
 		{"leaves the loop", "leaves the switch"},
+		{"binds in the scope of the if statement", "binds in a scope of its own (gone after the if statement)"},
+		{"binds in the scope of the switch statement", "binds in the switch's own scope (gone after the switch)"},
+		{"binds in the loop's own scope (gone after the loop)", "binds in the scope of the for statement"},
 	}
 	var out []string
-	for d := 0; d < 6; d++ {
+	for d := 0; d < nDims; d++ {
 		seen := map[int]bool{}
 		for i := 0; i < nReso; i++ {
 			if m.has(i) {
@@ -147,13 +190,22 @@ func (m rmask) describe() []string {
 
 // ---------- one case ----------
 
+var dimsTab = func() (t [nReso][nDims]int8) {
+	for i := 0; i < nReso; i++ {
+		for k, d := range resoOf(i).dims() {
+			t[i][k] = int8(d)
+		}
+	}
+	return
+}()
+
 type verdict struct {
 	Src      string
 	Impl     implResult
 	Skipped  string // non-empty: outside the compared set (reason)
 	Mask     rmask  // resolutions under which the model predicts the implementation's outcome
 	Models   []string
-	Relevant [6]bool
+	Relevant [nDims]bool
 }
 
 func evaluate(d desc) verdict {
@@ -171,39 +223,40 @@ func evaluate(d desc) verdict {
 		v.Skipped = "fuel"
 		return v
 	}
-	type cached struct {
-		ok    bool
-		match bool
-	}
-	cache := map[int]cached{}
+	// state per canonical resolution: 0 not yet run, 1 model undefined, 2 mismatch, 3 match
+	var state [nReso]byte
 	seenModel := map[string]bool{}
 	for i := 0; i < nReso; i++ {
-		dims := resoOf(i).dims()
+		dims := &dimsTab[i]
 		canon, mul := 0, 1
-		for k := 0; k < 6; k++ {
+		for k := 0; k < nDims; k++ {
 			if v.Relevant[k] {
-				canon += dims[k] * mul
+				canon += int(dims[k]) * mul
 			}
 			mul *= resoDims[k]
 		}
-		c, have := cache[canon]
-		if !have {
+		if state[canon] == 0 {
 			o, ok := runModel(prog, resoOf(canon))
-			c = cached{ok: ok}
+			switch {
+			case !ok:
+				state[canon] = 1
+			case matches(o, v.Impl.Out):
+				state[canon] = 3
+			default:
+				state[canon] = 2
+			}
 			if ok {
-				c.match = matches(o, v.Impl.Out)
 				if s := o.String(); !seenModel[s] {
 					seenModel[s] = true
 					v.Models = append(v.Models, s)
 				}
 			}
-			cache[canon] = c
 		}
-		if !c.ok {
+		if state[canon] == 1 {
 			v.Skipped = "model"
 			return v
 		}
-		if c.match {
+		if state[canon] == 3 {
 			v.Mask.set(i)
 		}
 	}
@@ -237,6 +290,14 @@ func (h *hashSet) add(s string) bool {
 type replayData struct {
 	Desc desc   `json:"desc"`
 	Src  string `json:"src"`
+	Set  []desc `json:"set,omitempty"` // resolution/inconsistent: programs that no single resolution explains
+}
+
+func keyLess(a, b string) bool {
+	if len(a) != len(b) {
+		return len(a) < len(b)
+	}
+	return a < b
 }
 
 func classOf(d desc) string {
@@ -255,7 +316,7 @@ func run(c *common.Ctx) *common.Result {
 	var nontrivial hashSet
 	var gmu sync.Mutex
 	global := fullMask()
-	partial := map[rmask]string{} // distinct non-full masks -> smallest example (program key)
+	partial := map[rmask]desc{} // distinct non-full masks -> smallest example program
 	full := fullMask()
 
 	for _, sp := range spaces {
@@ -318,9 +379,8 @@ func run(c *common.Ctx) *common.Result {
 				if v.Mask != full {
 					gmu.Lock()
 					global = global.and(v.Mask)
-					k := d.key()
-					if old, ok := partial[v.Mask]; !ok || len(k) < len(old) || (len(k) == len(old) && k < old) {
-						partial[v.Mask] = k
+					if old, ok := partial[v.Mask]; !ok || keyLess(d.key(), old.key()) {
+						partial[v.Mask] = d
 					}
 					gmu.Unlock()
 				}
@@ -337,15 +397,42 @@ func run(c *common.Ctx) *common.Result {
 		res.Distinct("resolutions_consistent_with_every_program", s)
 	}
 	if global.empty() {
-		// no single resolution explains all programs: report the constraint sets
-		var ks []string
-		for m, k := range partial {
-			ks = append(ks, k+" allows "+m.String())
+		// no single resolution explains all programs: report a minimal conflicting set
+		type pm struct {
+			m rmask
+			d desc
 		}
-		sort.Strings(ks)
-		res.Violate(common.Violation{Class: "resolution/inconsistent", Case: "whole run",
-			Detail: "every program matches the model under some resolution of the open points, but no single resolution explains all of them:\n  " + strings.Join(ks, "\n  "),
-			Replay: replayData{}})
+		var all []pm
+		for m, d := range partial {
+			all = append(all, pm{m, d})
+		}
+		sort.Slice(all, func(i, j int) bool { return keyLess(all[i].d.key(), all[j].d.key()) })
+		conflict := func(set []pm) bool {
+			acc := fullMask()
+			for _, x := range set {
+				acc = acc.and(x.m)
+			}
+			return acc.empty()
+		}
+		core := all
+		for i := 0; i < len(core); {
+			without := append(append([]pm{}, core[:i]...), core[i+1:]...)
+			if conflict(without) {
+				core = without
+			} else {
+				i++
+			}
+		}
+		var keys, parts []string
+		var set []desc
+		for _, x := range core {
+			keys = append(keys, x.d.key())
+			set = append(set, x.d)
+			parts = append(parts, "the program\n"+render(build(x.d), "    ")+"  is explained only by: "+strings.Join(x.m.restrictions(), "; "))
+		}
+		res.Violate(common.Violation{Class: "resolution/inconsistent", Case: strings.Join(keys, " vs "),
+			Detail: "every program matches the model under some resolution of the open points, but no single resolution explains all of them:\n  " + strings.Join(parts, "\n  "),
+			Replay: replayData{Set: set}})
 	}
 
 	// deterministic samples: fixed positions of the depth-2 enumeration
@@ -374,7 +461,7 @@ func coverage(c *common.Ctx, r *common.Result) map[string]interface{} {
 		"panics":                r.Counts["skipped_panic"],
 		"model_undefined":       r.Counts["skipped_model"],
 		"open_point_resolution": r.SetMembers("resolutions_consistent_with_every_program"),
-		"bounds":                "depth 0-2 with payloads of length <= 2 (quick); plus depth 3 with payloads of length <= 1 (thorough); 30 constructs, 5 exits where legal, 4 top-level pre-bindings",
+		"bounds":                "depth 0-2 with payloads of length <= 2 (quick); plus depth 3 with payloads of length <= 1 (thorough); 34 constructs, 5 exits where legal, 4 top-level pre-bindings",
 	}
 }
 
@@ -384,9 +471,33 @@ func replay(c *common.Ctx, path string) int {
 		fmt.Println("cannot read replay:", err)
 		return 2
 	}
-	if rd.Src == "" {
-		fmt.Println("replay: this finding concerns the whole run (no single program); re-run the check")
-		return 1
+	if len(rd.Set) > 0 {
+		var first string
+		for round := 0; round < 2; round++ {
+			acc := fullMask()
+			var sb strings.Builder
+			for _, d := range rd.Set {
+				v := evaluate(d)
+				if v.Skipped != "" {
+					fmt.Fprintf(&sb, "%s\noutside the compared set: %s\n", v.Src, v.Skipped)
+					continue
+				}
+				acc = acc.and(v.Mask)
+				fmt.Fprintf(&sb, "%s  implementation: %s\n  explained only by: %s\n", v.Src, v.Impl.Out.String(), strings.Join(v.Mask.restrictions(), "; "))
+			}
+			fmt.Fprintf(&sb, "jointly consistent: %v\n", !acc.empty())
+			if round == 0 {
+				first = sb.String()
+			} else if sb.String() != first {
+				fmt.Println("NONDETERMINISTIC replay")
+				return 2
+			}
+		}
+		fmt.Print(first)
+		if strings.HasSuffix(first, "jointly consistent: false\n") {
+			return 1
+		}
+		return 0
 	}
 	var first string
 	var v verdict
@@ -424,7 +535,7 @@ func init() {
 	common.Register(&common.Prop{
 		ID: "C04", Level: "exploration", Run: run, Coverage: coverage, Replay: replay,
 		Assumptions: []string{
-			"programs are spines PRE; W1[W2[W3[PAYLOAD; EXIT]; READ]; READ]; READ over 30 scope-creating constructs, payloads over {n = v, var n = v, read n} on names a and b, exits {fall, break, continue, return, throw caught by an outer try}",
+			"programs are spines PRE; W1[W2[W3[PAYLOAD; EXIT]; READ]; READ]; READ over 34 scope-creating constructs, payloads over {n = v, var n = v, read n} on names a and b, exits {fall, break, continue, return, throw caught by an outer try}",
 			"values are distinct integers per write, so a read identifies the writer; reads are `n ?? \"U\"` through a host probe",
 			"open points are not compared but must be resolved consistently: loop body scope per loop vs per iteration (separately for for/while, C-for, for-in), scope shared by try/catch/finally or not, what break/continue/return do when they leave a try body (owned by C08), whether break inside switch leaves the loop or the switch; M.n for a name the module does not bind",
 			"error messages are never compared, only error-vs-success; panics are counted, not judged (C01)",
